@@ -1,7 +1,7 @@
 /-
-  Lemmas/SchemaExactField.lean — exactness at field level beyond scalars: homogeneous `Array[X]` and
-  `Tuple[X]` (no uniqueItems) over the exact fragment, at any nesting depth: what the field's schema
-  admits is accepted by `deserialize_single_field` and then by the field's validation.
+  Lemmas/SchemaExactField.lean — building blocks of exactness beyond scalars: no exact scalar schema admits null; inverting
+  the array keywords; lifting acceptance from elements to `Array[X]` / `Tuple[X]`.  The theorem itself is in
+  Lemmas/SchemaExactClass.lean (mutual with nested classes).
 -/
 import TypedpyModel.Lemmas.SchemaExact
 namespace Typedpy.Sch
@@ -106,86 +106,5 @@ theorem c08_exact_items (O : Oracles) (opts : DeserOpts) (f : FieldDecl) (P : Py
     obtain ⟨ys, ys', hds, hvs, hl⟩ := c08_exact_items O opts f P hacc xs (fun z hz => h z (by simp [hz]))
     exact ⟨y :: ys, y' :: ys', by simp [mapE, hd, hds], by simp [mapE, hv, hvs], by simp [hl]⟩
 
-
-/-! ### the exact field fragment -/
-
-/-- **exactness at field level, any nesting of Array[X] / Tuple[X]**: whatever the schema of the field
-    admits is accepted by `deserialize_single_field` and by the validation the constructor then runs -/
-theorem c08_exact_field (O : Oracles) (R : String → PyVal → Bool) (S : String → String → Bool)
-    (hS : ∀ p s, startAnchored p = true → S p s = true → O.reMatch p s = true) (opts : DeserOpts) :
-    ∀ (f : FieldDecl) (ign : Bool) (v : PyVal), exactF f = true → jsV R S (emit true f) v = true →
-      Accepted O opts ign f v
-  | .seqOf k f sz, ign, v, hf, h => by
-    simp only [exactF, and_true_iff'] at hf
-    have hk : k = .list := by simpa using hf.1.1
-    subst hk
-    have hu : sz.uniq = false := by simpa using hf.1.2
-    simp only [emit] at h
-    obtain ⟨xs, rfl, hsz, hall⟩ := c08_jsV_arrOf_inv R S sz (emit true f) (emit_shape true f) v h
-    obtain ⟨ys, ys', hd, hv, hl⟩ := c08_exact_items O opts f (fun x => jsV R S (emit true f) x = true)
-      (fun x hx => c08_exact_field O R S hS opts f false x hf.2 hx) xs
-      (fun x hx => List.all_eq_true.mp hall x hx)
-    refine ⟨.list ys, .list ys', ?_, ?_⟩
-    · simp [deser, PyVal.isNone, dSeq, docSeq, hd, toValueErr, mkSeq]
-    · have hl' : ys.length = xs.length := hl
-      simp [validate, vSeq, seqElems, uniqOk, hu, hl', hsz, hv, mkSeq]
-  | .tupleOf f u, ign, v, hf, h => by
-    simp only [exactF, and_true_iff'] at hf
-    have hu : u = false := by simpa using hf.1
-    subst hu
-    simp only [emit] at h
-    obtain ⟨xs, rfl, _, hall⟩ := c08_jsV_arrOf_inv R S { uniq := false } (emit true f) (emit_shape true f) v h
-    obtain ⟨ys, ys', hd, hv, _⟩ := c08_exact_items O opts f (fun x => jsV R S (emit true f) x = true)
-      (fun x hx => c08_exact_field O R S hS opts f false x hf.2 hx) xs
-      (fun x hx => List.all_eq_true.mp hall x hx)
-    refine ⟨.tuple ys, .tuple ys', ?_, ?_⟩
-    · simp [deser, PyVal.isNone, dSeq, docSeq, hd, toValueErr]
-    · simp [validate, vTuple, uniqOk, hv]
-  | .number o, ign, v, hf, h => exact_scalar O R S hS opts ign _ v (by simpa [exactF] using hf) h
-  | .integer o, ign, v, hf, h => exact_scalar O R S hS opts ign _ v (by simpa [exactF] using hf) h
-  | .float o, ign, v, hf, h => exact_scalar O R S hS opts ign _ v (by simpa [exactF] using hf) h
-  | .string lo hi pat, ign, v, hf, h => exact_scalar O R S hS opts ign _ v (by simpa [exactF] using hf) h
-  | .boolean, ign, v, _, h => exact_scalar O R S hS opts ign _ v rfl h
-  | .enumLit vs, ign, v, hf, h => exact_scalar O R S hS opts ign _ v (by simpa [exactF] using hf) h
-  | .enumCls c names, ign, v, hf, h => exact_scalar O R S hS opts ign _ v (by simpa [exactF] using hf) h
-  | .seqAny _ _, _, _, hf, _ => by simp [exactF] at hf
-  | .seqPos _ _ _ _, _, _, hf, _ => by simp [exactF] at hf
-  | .setAny _ _, _, _, hf, _ => by simp [exactF] at hf
-  | .setOf _ _ _, _, _, hf, _ => by simp [exactF] at hf
-  | .tuplePos _ _, _, _, hf, _ => by simp [exactF] at hf
-  | .mapAny _, _, _, hf, _ => by simp [exactF] at hf
-  | .mapOf _ _ _, _, _, hf, _ => by simp [exactF] at hf
-  | .struct _ _ _, _, _, hf, _ => by simp [exactF] at hf
-  | .anyOf _, _, _, hf, _ => by simp [exactF] at hf
-  | .oneOf _, _, _, hf, _ => by simp [exactF] at hf
-  | .allOf _, _, _, hf, _ => by simp [exactF] at hf
-  | .notF _, _, _, hf, _ => by simp [exactF] at hf
-  | .noneF, _, _, hf, _ => by simp [exactF] at hf
-  | .anything, _, _, hf, _ => by simp [exactF] at hf
-
-/-- no schema of the exact field fragment admits `null` -/
-theorem c08_exactF_not_null (R S) (f : FieldDecl) (hf : exactF f = true) :
-    jsV R S (emit true f) .none = false := by
-  cases hv : jsV R S (emit true f) .none with
-  | false => rfl
-  | true =>
-    exfalso
-    cases f with
-    | seqOf k g sz =>
-      simp only [emit] at hv
-      obtain ⟨xs, hx, _⟩ := c08_jsV_arrOf_inv R S sz (emit true g) (emit_shape true g) .none hv
-      cases hx
-    | tupleOf g u =>
-      simp only [emit] at hv
-      obtain ⟨xs, hx, _⟩ := c08_jsV_arrOf_inv R S { uniq := u } (emit true g) (emit_shape true g) .none hv
-      cases hx
-    | number o => rw [c08_exact_not_null R S _ (by simpa [exactF] using hf)] at hv; cases hv
-    | integer o => rw [c08_exact_not_null R S _ (by simpa [exactF] using hf)] at hv; cases hv
-    | float o => rw [c08_exact_not_null R S _ (by simpa [exactF] using hf)] at hv; cases hv
-    | string lo hi pat => rw [c08_exact_not_null R S _ (by simpa [exactF] using hf)] at hv; cases hv
-    | boolean => rw [c08_exact_not_null R S _ rfl] at hv; cases hv
-    | enumLit vs => rw [c08_exact_not_null R S _ (by simpa [exactF] using hf)] at hv; cases hv
-    | enumCls c names => rw [c08_exact_not_null R S _ (by simpa [exactF] using hf)] at hv; cases hv
-    | _ => simp [exactF] at hf
 
 end Typedpy.Sch
